@@ -74,3 +74,33 @@ def method_calls_on(ev, obj_key, method):
         if t and t[0] == "attr" and t[2] == method and t[1].key() == obj_key:
             out.append(e)
     return out
+
+
+TRANSPARENT_CALLS = {"numpy.asarray", "numpy.array", ".to_cartesian", ".to_fractional", ".astype", ".copy", "numpy.ascontiguousarray"}
+
+
+def index_chain(term: P):
+    """(root key, [index-array keys]) of a gathered array term: X[a][b] and X[a[b]] both give (X, [a, b]);
+    asarray / to_cartesian / astype are transparent (DESIGN.md A.6)."""
+    a = term.as_atom()
+    if a is None:
+        return term.key(), []
+    if a[0] == "call" and call_name(a) in TRANSPARENT_CALLS:
+        c = a[1].as_atom()
+        inner = a[2][0] if a[2] else (c[1] if c and c[0] == "attr" else None)
+        if call_name(a).startswith(".") and not a[2] and c and c[0] == "attr":
+            inner = c[1]
+        if call_name(a) == ".astype" and c and c[0] == "attr":
+            inner = c[1]
+        if inner is not None:
+            return index_chain(inner)
+    if a[0] == "obj":
+        return index_chain(a[3]) if False else (term.key(), [])
+    if a[0] == "sub" and len(a[2]) == 1:
+        ia = a[2][0].as_atom()
+        if ia is not None and ia[0] in ("slice", "str") or a[2][0].const_value() is not None:
+            return term.key(), []
+        root, ops = index_chain(a[1])
+        iroot, iops = index_chain(a[2][0])
+        return root, ops + [iroot] + iops
+    return term.key(), []
